@@ -184,7 +184,8 @@ func (x *Exec) callStatic(st *State, fn *ssa.Function, args []Value, binds []Val
 			for _, c := range rfc.CallSites[fn.Name()] {
 				g, err := env.evalBool(c.Expr)
 				if err != nil {
-					if strings.Contains(err.Error(), "unknown identifier") {
+					if strings.Contains(err.Error(), "unknown identifier") || strings.Contains(err.Error(), "no field ") {
+						// (no field: a local of the same name but of another type is in scope at this call)
 						// the clause talks about a local that is not in scope at this call: it is
 						// about other calls of the same function
 						x.noteOnce("callsite clause %s does not apply at %s (%v)", c.Label, x.srcAt(pos), err)
@@ -773,6 +774,15 @@ func (x *Exec) ifaceEvent(st *State, recv *Term, name string, sig *types.Signatu
 		if t, ok := r.(*Term); ok {
 			for _, f := range x.typeFacts(t, sig.Results().At(i).Type(), 0) {
 				st.assume(f)
+			}
+		}
+	}
+	if name == "Sum" && len(args) == 1 && len(results) == 1 && recv != nil {
+		// hash.Hash.Sum appends the digest to its argument: the result is longer by the digest size of
+		// this hash (assumed library fact; the size is 32 for a hash made by sha256.New)
+		if rt, ok := results[0].(*Term); ok {
+			if at := x.term(args[0]); at != nil && strings.HasPrefix(rt.Sort, "Sl_") && at.Sort == rt.Sort {
+				st.assume(Eq(slLen(rt), Add(slLen(at), App("hash_size", "Int", recv))))
 			}
 		}
 	}
